@@ -14,12 +14,12 @@ ENGINES = [
     },
     {
         "name": "E3-crash",
-        "path": "vf/core/crash.py",
+        "path": "vf/checks/c21.py",
         "kind_free_text": "crash-point / torn-write enumeration: every prefix of the bytes a write path produces",
     },
     {
         "name": "E4-enum",
-        "path": "vf/core/enum.py",
+        "path": "vf/ref/",
         "kind_free_text": "bounded-exhaustive enumeration of programs / inputs / option sets against a reference model",
     },
 ]
@@ -218,4 +218,19 @@ reg(
     "and options, and a cache that was loaded must have been written for the current version and options.",
     "mtime granularity is the logical tick; the premise 'edits are later than the cache' is built into the alphabet; "
     "mtime_check=False and re-pointing library_folders at older files are outside the property.",
+)
+
+reg(
+    "C21",
+    "E3-crash",
+    "fault_enumeration",
+    "every prefix of the recorded cache-file bytes as crash state + preemption-bounded schedules of two transfer_model callers",
+    "The bytes the real save path writes are recorded; the cache file absent, empty and cut at every byte offset is "
+    "classified through load_model, and the full transfer_model is run and compared with a fresh compile on every write "
+    "boundary, every 64th byte and one representative per loader outcome class (thorough: every byte), followed by a "
+    "second call. Two real transfer_model callers on one folder (no cache; stale cache) are explored at the cache-file "
+    "seams (getmtime, open, three write chunks, close, pickle.load) for all schedules with <= 2 (thorough 3) preemptions; "
+    "both results and a later sequential call must equal a fresh compile and nothing may raise.",
+    "A crash leaves a prefix of the single cache file (no torn sectors inside it); codegen artefacts are not "
+    "crash-enumerated; one model.",
 )
